@@ -93,8 +93,16 @@ func (r *CopyOnWriteMap[K, V]) ComputeIf(k K, pred func(V) bool, f func() V) V {
 		return ret.Get()
 	}
 
-	nv := f()
+	var nv V
 	r.copyOnWrite(func(om fp.UnsafeGoMap[K, V]) fp.UnsafeGoMap[K, V] {
+		// re-check under the write lock: another writer may have got in since the Get above
+		cur := om.Get(k).FilterNot(pred)
+		if cur.IsDefined() {
+			nv = cur.Get()
+			return om
+		}
+
+		nv = f()
 		nm := fp.UnsafeGoMap[K, V]{}
 
 		for k, v := range om {
@@ -105,7 +113,7 @@ func (r *CopyOnWriteMap[K, V]) ComputeIf(k K, pred func(V) bool, f func() V) V {
 		return nm
 	})
 
-	return r.Get(k).Get()
+	return nv
 }
 
 func (r *CopyOnWriteMap[K, V]) Updated(k K, v V) fp.MapBase[K, V] {
